@@ -470,7 +470,7 @@ func c04LiteralClosed(w *World, r *Report) {
 	for _, b := range f.Blocks {
 		for _, in := range b.Instrs {
 			if c, ok := in.(*ssa.Call); ok {
-				if sc := c.Call.StaticCallee(); sc != nil && sc.Name() == "ConstructToken" {
+				if sc := c.Call.StaticCallee(); sc != nil && nm(sc) == "ConstructToken" {
 					stop[b] = true
 				}
 			}
